@@ -271,13 +271,36 @@ def run(tier, seed, replay=None):
                 nb.get("during", 0), nb.get("later", 0), nb.get("after", 0)), {"kind": "failing-input", "phase": "udp", "operation": "stalled neighbour", "history": nb})
     except OSError as e:
         rep.fail("C14: UDP world: %s" % e, {"kind": "failing-input", "phase": "udp", "operation": "setup"})
+    # ---- QUIC: a handshake that never completes (only the client's first packet reaches the listener) -------------------
+    import quic_stall
+    qs = None
+    try:
+        for attempt in (0, 1):
+            qs = quic_stall.run(driver, name="c14-qstall%d" % attempt)
+            if qs.get("new_connection_1", (False, 0))[0] and qs.get("new_connection_2", (False, 0))[0]:
+                break
+        n_eval += 1
+        dist["quic-stalled-handshake"] += 1
+        if not qs.get("established_before", (False, 0))[0] or qs.get("relay_datagrams_seen", 0) < 1:
+            rep.fail("C14: QUIC stalled-handshake scenario could not be set up: %s" % qs, {"kind": "failing-input", "phase": "quic", "operation": "setup", "history": qs})
+        else:
+            for k, what in (("existing_connection", "a tunnel through an established QUIC connection"), ("new_connection_1", "a NEW QUIC connection from another client"),
+                            ("new_connection_2", "a second NEW QUIC connection")):
+                ok, secs = qs.get(k, (False, 0))
+                if not ok or secs > LIMIT + 1.0:
+                    rep.fail("C14: while one QUIC handshake is stalled (the listener saw the client's first packet and nothing more): %s %s after %.1fs" % (
+                        what, "was not served" if not ok else "was served only", secs), {"kind": "failing-input", "phase": "quic", "operation": k, "history": qs})
+                    break
+    except OSError as e:
+        rep.fail("C14: QUIC world: %s" % e, {"kind": "failing-input", "phase": "quic", "operation": "setup"})
     rep.coverage.update({
+        "quic_stalled_handshake": qs,
         "udp_stalled_neighbour": nb,
         "evaluations": n_eval, "distinct_nontrivial": len(stalls) + len(API) + len(FRESH),
         "rule": "14 requests refused in every way (deny, no rule, upstream down, UDP to a TCP-only balancer, BIND, unknown command, GET) on http / SOCKS5 / SOCKS4, each answered and followed by latency probes; clients stalled after k bytes of their handshake for k over every prefix (thorough) or a spread of prefixes (quick) of HTTP CONNECT, SOCKS5, SOCKS5 with password, SOCKS4, SOCKS4a, plus TCP-only / half ClientHello / post-handshake stalls on a TLS listener; 6 tunnels blocked on a reader that does not read; 6 churn threads; meanwhile every API endpoint %s and fresh tunnels on %s, limit %.1fs each" % (API, FRESH, LIMIT),
         "input_distribution": dict(dist), "stalled_clients": len(stalls) + 1, "worst_latency_s": {k: round(v, 3) for k, v in worst.items()},
     })
-    rep.assumptions = ["latency threshold %.1fs" % LIMIT, "tproxy listeners are not exercised; QUIC is exercised on the UDP path (a stalled UDP-over-CONNECT client next to a session on the same QUIC connection)"]
+    rep.assumptions = ["latency threshold %.1fs" % LIMIT, "tproxy listeners are not exercised; QUIC: a stalled UDP-over-CONNECT client next to a session on the same QUIC connection, and a QUIC handshake that never completes (one-packet relay) next to new QUIC connections"]
     if broken and not rep.violations:
         rep.broken_obligation(broken[0], broken[1])
     return rep.finish()
